@@ -42,6 +42,26 @@ def _level(hi, i):
     return (logging.INFO, logging.WARNING, logging.ERROR)[i % 3]
 
 
+def passes(sc, i):
+    """is record i to be handled under the PARENT's level settings?  `lvl`:
+      'root'         root INFO, the records' logger unset         -> every record but the DEBUG ones
+      'named_debug'  root INFO, the records' logger set to DEBUG  -> every record (the logger's own level decides, not root's)
+      'named_error'  root INFO, the records' logger set to ERROR  -> only the ERROR records"""
+    hi = not (sc['lo_every'] and i % sc['lo_every'] == 0)
+    lvl = sc.get('lvl', 'root')
+    if lvl == 'named_debug':
+        return True
+    if lvl == 'named_error':
+        return _level(hi, i) >= logging.ERROR
+    return hi
+
+
+def set_parent_levels(sc):
+    logging.getLogger().setLevel(logging.INFO)       # DEBUG records of the child are to be dropped by the parent's level
+    logging.getLogger(LOGGER_NAME).setLevel({'named_debug': logging.DEBUG, 'named_error': logging.ERROR}
+                                            .get(sc.get('lvl', 'root'), logging.NOTSET))
+
+
 def emit_records(first, count, nbytes, lo_every):
     lg = logging.getLogger(LOGGER_NAME)
     for i in range(first, first + count):
@@ -101,7 +121,7 @@ def script_main(sc, outp):
     root = logging.getLogger()
     for h in list(root.handlers):
         root.removeHandler(h)
-    root.setLevel(logging.INFO)
+    set_parent_levels(sc)
     root.addHandler(FileRecorder(level=logging.NOTSET))
     p = Process(target=log_target, args=({k: sc[k] for k in ('n', 'bytes', 'lo_every', 'kind') if k in sc},),
                 name='verif-log-script')
@@ -202,7 +222,7 @@ def pipe_units():
 def header(sc, P):
     n = sc['n']
     s = min(P, sc['bytes'] // UNIT)
-    return {'n': n, 's': [s] * n, 'hi': [not (sc['lo_every'] and i % sc['lo_every'] == 0) for i in range(1, n + 1)],
+    return {'n': n, 's': [s] * n, 'hi': [passes(sc, i) for i in range(1, n + 1)],
             'P': P, 'kind': sc['kind']}
 
 
@@ -216,7 +236,7 @@ def run_case(item, bound):
     root = logging.getLogger()
     for h in list(root.handlers):
         root.removeHandler(h)
-    root.setLevel(logging.INFO)       # DEBUG records of the child are to be dropped by the parent's level
+    set_parent_levels(sc)
     recorder = Recorder(ev, sc['slow'])
     root.addHandler(recorder)
     t0 = time.time()
@@ -318,6 +338,7 @@ def run_case(item, bound):
     finally:
         rec['wall'] = round(time.time() - t0, 3)
         root.removeHandler(recorder)
+        logging.getLogger(LOGGER_NAME).setLevel(logging.NOTSET)
         for p in procs:
             try:
                 if p.pid is not None and p.exitcode is None:
@@ -348,10 +369,10 @@ SHAPES = [(0, 0), (1, 50), (5, 100), (40, 1500), (50, 2000), (300, 100), (20, 80
 KINDS = ('return', 'raise', 'exit0', 'exitN')
 
 
-def process_scenario(shape, slow, kind, lo_every=0, mid_pause=0, tail_pause=0):
+def process_scenario(shape, slow, kind, lo_every=0, mid_pause=0, tail_pause=0, lvl='root'):
     n, nb = shape
     return {'flavour': 'process', 'n': n, 'bytes': nb, 'slow': slow, 'kind': kind, 'lo_every': lo_every,
-            'mid_pause': mid_pause, 'tail_pause': tail_pause}
+            'mid_pause': mid_pause, 'tail_pause': tail_pause, 'lvl': lvl}
 
 
 def hosted_scenario(flavour, calls, per_call, at_stop, nb, slow, lo_every=0):
@@ -375,11 +396,18 @@ def gen_scenarios(rnd, thorough):
                 pause = ((0, 0), (0, 0), (0.2, 0), (0, 0.2))[(k // 3) % 4]
                 k += 1
                 out.append(process_scenario(shape, slow, kind, lo, *pause))
+    # the parent's level settings are per logger: the records' own logger more / less verbose than root
+    for j, shape in enumerate([(5, 100), (40, 1500), (300, 100), (6, 30000)] if thorough else [(5, 100), (40, 1500)]):
+        for lvl in ('named_debug', 'named_error'):
+            for lo in ((0, 3) if thorough else ((0, 3)[j % 2],)):
+                out.append(process_scenario(shape, False, KINDS[(j + len(lvl)) % 4], lo, 0, 0, lvl=lvl))
     hosted = [(3, 2, 1, 100), (10, 5, 10, 2000), (30, 10, 0, 200), (4, 3, 8, 8000), (1, 0, 60, 1500)]
     for j, (calls, per, at_stop, nb) in enumerate(hosted if thorough else hosted[:3]):
         for slow in ((False, True) if thorough else (j % 2 == 0,)):
-            out.append(hosted_scenario('servlet', calls, per, at_stop, nb, slow, lo_every=(0, 4)[j % 2]))
-            out.append(hosted_scenario('pool', calls, max(per, 1), 0, nb, slow, lo_every=(0, 4)[j % 2]))
+            out.append(hosted_scenario('servlet', calls, per, at_stop, nb, slow, lo_every=(0, 4)[j % 2])
+                       | {'lvl': ('root', 'named_error', 'named_debug')[j % 3]})
+            out.append(hosted_scenario('pool', calls, max(per, 1), 0, nb, slow, lo_every=(0, 4)[j % 2])
+                       | {'lvl': ('named_debug', 'root', 'named_error')[j % 3]})
     # a launching script that ends right after join() while the parent still has a backlog to handle (slow handler)
     for j, (n, nb) in enumerate([(400, 60), (150, 2000), (30, 100)] + ([(800, 40), (60, 9000)] if thorough else [])):
         for kind in (KINDS if thorough else (KINDS[j % 4],)):
